@@ -121,6 +121,67 @@ func checkC09(c *Ctx) {
 	if !m.ok(c, "C09") {
 		return
 	}
+	// ----- R6: the only place that turns a seed string into a random source is reached from the constructor's seed argument only
+	c.rule("C09.R6", "who may seed: functions of the module that can pick a random seed for an empty seed string (they reach a nondeterminism source under `seed == \"\"`, C09.R1) are called only by the runner's constructor, with its seed argument: no other path (a restore, a reset) re-creates the random source from a string that may be empty", 1)
+	{
+		rp := w.Pkg("internal/rng")
+		nSeeders := 0
+		if rp != nil {
+			for _, g := range w.FuncsIn(rp) {
+				if g.Decl == nil || g.Obj == nil || !g.Obj.Exported() || g.Decl.Recv != nil {
+					continue
+				}
+				sig := g.Sig()
+				if sig.Params().Len() != 1 || typeStr(sig.Params().At(0).Type()) != "string" || sig.Results().Len() == 0 || !strings.Contains(typeStr(sig.Results().At(0).Type()), "RNG") {
+					continue
+				}
+				nSeeders++
+				// every call site in the module
+				for _, f := range w.Funcs {
+					if f.Body == nil {
+						continue
+					}
+					finfo := f.Pkg.TypesInfo
+					walkNoLit(f.Body, func(n ast.Node) bool {
+						call, ok := n.(*ast.CallExpr)
+						if !ok {
+							return true
+						}
+						if callee := calleeOf(finfo, call); callee == nil || callee != g.Obj {
+							return true
+						}
+						okSite := w.rootOf(f) == m.ctor
+						argOK := false
+						if okSite && len(call.Args) == 1 {
+							if id := identOf(call.Args[0]); id != nil {
+								if v, isVar := finfo.Uses[id].(*types.Var); isVar {
+									ps := m.ctor.Sig().Params()
+									for i := 0; i < ps.Len(); i++ {
+										if ps.At(i) == v {
+											argOK = true
+										}
+									}
+								}
+							}
+						}
+						key := f.Name + "/calls " + g.Obj.Name()
+						switch {
+						case okSite && argOK:
+							c.ob("C09.R6", key, w.Pos(call.Pos()), true, "called by the constructor with its seed argument")
+						case okSite:
+							c.ob("C09.R6", key, w.Pos(call.Pos()), false, "the constructor seeds the random source with "+exprStr(call.Args[0])+", not with its seed argument")
+						default:
+							c.ob("C09.R6", key, w.Pos(call.Pos()), false, g.Obj.Name()+" is called outside the runner's constructor (with "+shorten(exprStr(call.Args[0]), 60)+"): the random source is re-created from a string that may be empty — an empty seed picks a random one, so two runs with the same script, seed and choices diverge after this call")
+						}
+						return true
+					})
+				}
+			}
+		}
+		if nSeeders == 0 {
+			c.undecided("C09.R6", "no exported function of internal/rng taking a seed string and returning an RNG was found")
+		}
+	}
 	// ----- R1
 	roots := w.apiRoots()
 	reach := w.reachModule(roots...)
